@@ -303,3 +303,105 @@ Proof.
   unfold G. eapply IndexBridgeC10Old.finalize_old_wf_indexed; eauto.
 Qed.
 Print Assumptions N_blocks_keep_potential_row_sums_for_every_loaded_geometry_old_ordering.
+
+(* ------------------------------------------------------------------------------------------------------------
+   Round 4: algebra of the assembly that other properties lean on (coq/Geom/AssemblyLinear.v, AssemblyRelabel.v). *)
+From OM Require Geom.AssemblyLinear Geom.AssemblyRelabel.
+
+(* the packed storage: one cell per unordered pair; (i,j) and (j,i) read the same value *)
+Theorem headmat_symmetric_storage : forall K pos area Sk Dk (g : igeom R) i j,
+  mget RO (headmat RO K pos area Sk Dk g) i j = mget RO (headmat RO K pos area Sk Dk g) j i.
+Proof. exact AssemblyLinear.headmat_symmetric. Qed.
+Print Assumptions headmat_symmetric_storage.
+(* an assignment through (i,j) is read back through (j,i); accumulations through (i,j) and (j,i) add up in one cell *)
+Theorem transposed_writes_share_one_cell : forall (M : store R) i j x y,
+  mget RO (mset M i j x) j i = x /\ mget RO (madd RO (madd RO M i j x) j i y) i j = mget RO M i j + x + y.
+Proof. intros. split; [apply AssemblyLinear.transposed_cell_assign | apply AssemblyLinear.transposed_cell_accumulate]. Qed.
+Print Assumptions transposed_writes_share_one_cell.
+Theorem accumulations_commute : forall (M : store R) i j x k l y r c,
+  mget RO (madd RO (madd RO M i j x) k l y) r c = mget RO (madd RO (madd RO M k l y) i j x) r c.
+Proof. exact AssemblyLinear.accumulations_commute. Qed.
+Print Assumptions accumulations_commute.
+(* the cells that are ASSIGNED (S blocks: two triangle indices) are never cells that are accumulated into
+   (N, D, D*, deflate all have a vertex index): assignments and accumulations cannot overwrite each other *)
+Theorem assigned_cells_are_not_accumulated : forall (g : igeom R) VV, wf_indexed g VV ->
+  forall p t1 t2, In p (gpairs g) ->
+  (In t1 (mtris (gmesh g (pm1 p))) \/ In t1 (mtris (gmesh g (pm2 p)))) ->
+  (In t2 (mtris (gmesh g (pm1 p))) \/ In t2 (mtris (gmesh g (pm2 p)))) ->
+  forall r c, In r (Cidx g VV) \/ In c (Cidx g VV) -> hit (tix t1) (tix t2) r c = false.
+Proof. exact AssemblyLinear.assigned_cells_are_not_accumulated. Qed.
+Print Assumptions assigned_cells_are_not_accumulated.
+
+(* each entry is a fixed linear functional of the kernel family: linear in (Sk,Dk) jointly, for EVERY indexed geometry,
+   the coefficients (orientation*K, sigma, sigma_inv, indicator, edge vectors, areas, index tables) not depending on
+   the kernels *)
+Theorem headmat_depends_on_kernels_entrywise : forall K pos area (g : igeom R) S1 S2 D1 D2 a b i j,
+  mget RO (headmat RO K pos area (fun t u => a * S1 t u + b * S2 t u) (fun t u k => a * D1 t u k + b * D2 t u k) g) i j
+  = a * mget RO (headmat RO K pos area S1 D1 g) i j + b * mget RO (headmat RO K pos area S2 D2 g) i j.
+Proof. exact AssemblyLinear.headmat_linear_in_kernels_lemma. Qed.
+Print Assumptions headmat_depends_on_kernels_entrywise.
+
+(* relabelling the unknowns by an injective pi conjugates the head matrix.  The two label-dependent places of the
+   code are explicit: pi acts as a translation on the triangle blocks of the pairs that go through a temporary
+   SymBloc/Bloc (all_pairs_translated), and pi 0 = 0 (the i_first==0 sentinel of deflate) *)
+Theorem headmat_relabel_conjugate : forall K pos area Sk Dk (g : igeom R) (pi : N -> N),
+  (forall a b, pi a = pi b -> a = b) -> pi NOIDX = NOIDX -> pi 0%N = 0%N ->
+  AssemblyRelabel.all_pairs_translated K g pi ->
+  forall i j, mget RO (headmat RO K pos area Sk Dk (AssemblyRelabel.relab pi g)) (pi i) (pi j)
+            = mget RO (headmat RO K pos area Sk Dk g) i j.
+Proof. intros. apply AssemblyRelabel.headmat_relabel_conjugate_lemma; auto. Qed.
+Print Assumptions headmat_relabel_conjugate.
+
+(* old-ordering variants of the remaining loaded-geometry statements *)
+Theorem no_parts_all_rows_sum_zero_for_every_loaded_geometry_old_ordering :
+  forall g hasc zero snz fi sig sinv ind K pos area Sk Dk,
+  GeomModel.finalize g hasc zero snz true = (GeomModel.StOk, Some fi) -> IndexBridgeC10.meshes_well_formed g ->
+  NoDup (flat_map GeomModel.lm_verts (GeomModel.g_meshes g)) ->
+  let G := IndexBridgeC10.to_igeom g fi sig sinv ind in
+  gparts G = [] ->
+  forall rho, In rho (IndexBridgeC10Old.VVold g) ->
+  Rsum (fun u => mget RO (headmat RO K pos area Sk Dk G) (vix G rho) (vix G u)) (IndexBridgeC10Old.VVold g) = 0.
+Proof.
+  intros g hasc zero snz fi sig sinv ind K pos area Sk Dk Hf Hw ND G Hp rho Hr.
+  apply AssemblyProofs.no_parts_all_rows_sum_zero; auto. unfold G. eapply IndexBridgeC10Old.finalize_old_wf_indexed; eauto.
+Qed.
+Print Assumptions no_parts_all_rows_sum_zero_for_every_loaded_geometry_old_ordering.
+
+(* the cavity-wall theorem for every loaded geometry, default and old ordering: only the hypotheses about the wall
+   itself remain (current barrier, never deflated, own vertices, Gauss) *)
+Theorem cavity_wall_indicator_in_kernel_for_every_loaded_geometry :
+  forall g hasc zero snz fi sig sinv ind K pos area Sk Dk,
+  GeomModel.finalize g hasc zero snz false = (GeomModel.StOk, Some fi) -> IndexBridgeC10.meshes_well_formed g ->
+  let G := IndexBridgeC10.to_igeom g fi sig sinv ind in
+  forall w, let W := gmesh G w in
+  mesh_wf W -> incl (mverts W) (IndexBridgeC10.VV g fi) -> mbarrier W = true ->
+  (forall v, In v (mverts W) -> ~ In (vix G v) (outer_idx G)) ->
+  (forall p k, In p (gpairs G) -> (k = pm1 p \/ k = pm2 p) -> k <> w -> forall v, In v (mverts (gmesh G k)) -> ~ In v (mverts W)) ->
+  (forall p k t1, In p (gpairs G) -> (k = pm1 p \/ k = pm2 p) -> k <> w -> In t1 (mtris (gmesh G k)) ->
+     Rsum (fun t2 => Dk (tid t1) (tid t2) 0%nat + Dk (tid t1) (tid t2) 1%nat + Dk (tid t1) (tid t2) 2%nat) (mtris W) = 0) ->
+  forall r, Rsum (fun v => mget RO (headmat RO K pos area Sk Dk G) r (vix G v)) (mverts W) = 0.
+Proof.
+  intros g hasc zero snz fi sig sinv ind K pos area Sk Dk Hf Hw G w W.
+  apply (CavityKernel.cavity_wall_indicator_in_kernel_lemma K pos area Sk Dk G (IndexBridgeC10.VV g fi)).
+  unfold G. eapply IndexBridgeC10.finalize_wf_indexed; eauto.
+Qed.
+Print Assumptions cavity_wall_indicator_in_kernel_for_every_loaded_geometry.
+
+Theorem cavity_wall_indicator_in_kernel_for_every_loaded_geometry_old_ordering :
+  forall g hasc zero snz fi sig sinv ind K pos area Sk Dk,
+  GeomModel.finalize g hasc zero snz true = (GeomModel.StOk, Some fi) -> IndexBridgeC10.meshes_well_formed g ->
+  NoDup (flat_map GeomModel.lm_verts (GeomModel.g_meshes g)) ->
+  let G := IndexBridgeC10.to_igeom g fi sig sinv ind in
+  forall w, let W := gmesh G w in
+  mesh_wf W -> incl (mverts W) (IndexBridgeC10Old.VVold g) -> mbarrier W = true ->
+  (forall v, In v (mverts W) -> ~ In (vix G v) (outer_idx G)) ->
+  (forall p k, In p (gpairs G) -> (k = pm1 p \/ k = pm2 p) -> k <> w -> forall v, In v (mverts (gmesh G k)) -> ~ In v (mverts W)) ->
+  (forall p k t1, In p (gpairs G) -> (k = pm1 p \/ k = pm2 p) -> k <> w -> In t1 (mtris (gmesh G k)) ->
+     Rsum (fun t2 => Dk (tid t1) (tid t2) 0%nat + Dk (tid t1) (tid t2) 1%nat + Dk (tid t1) (tid t2) 2%nat) (mtris W) = 0) ->
+  forall r, Rsum (fun v => mget RO (headmat RO K pos area Sk Dk G) r (vix G v)) (mverts W) = 0.
+Proof.
+  intros g hasc zero snz fi sig sinv ind K pos area Sk Dk Hf Hw ND G w W.
+  apply (CavityKernel.cavity_wall_indicator_in_kernel_lemma K pos area Sk Dk G (IndexBridgeC10Old.VVold g)).
+  unfold G. eapply IndexBridgeC10Old.finalize_old_wf_indexed; eauto.
+Qed.
+Print Assumptions cavity_wall_indicator_in_kernel_for_every_loaded_geometry_old_ordering.
